@@ -220,8 +220,9 @@ def substEntry (c : VarCtx) (pre : List KeyK) (e : Entry) : Entry :=
 map's iteration order (a node comes before the nodes below it) -/
 def substMap (c : VarCtx) (pre : List KeyK) (m : MergedMap) : List Entry := m.map (substEntry c pre)
 
+/-- does the value embed source locations?  (`{}` and `[]` do not) -/
 def isComposite : Value → Bool
-  | .object _ | .list _ => true
+  | .object (_ :: _) | .list (_ :: _) => true
   | _ => false
 
 /-- the first variable mentioned (`ConstantValue::try_from` fails with it) -/
